@@ -4,16 +4,21 @@ import re
 
 from ..framework import Check
 from .c13 import nl_lines
-from .. import blocklib as bl, lib
+from .. import blocklib as bl, lib, relib
 
 LINE_POOL = ["BEGIN X", "END", "  BEGIN", "data 1", "STOP here", "B", "", "XEND", "--", "# c", "E", "BEGIN END", "GIN X B",
              "BEGIN \u00e9t\u00e9", "\u00e7 END", "\u20ac B"]
+# carriage returns are ordinary characters of in-memory content (no newline translation there): CRLF line ends, a lone CR
+# inside a line, a line that is only a CR
+CR_POOL = ["END\r", "BEGIN X\r", "da\rta 1", "\r", "B\rEND", "data 12\r"]
+WORDS = ["BEGIN", "END", "B", "X", "#", "--", "STOP", "E", "GIN X", "data", "1", "\n", "END\n", " ", "\r"]
 
 
 class CHECK(Check):
     pid = "C12"
     entry = "BLOCKFILE"
-    theorems = ["C12_total", "C12_accounting", "C12_roundtrip", "C12_dispatch", "C12_first_match", "C12_default_one_line"]
+    theorems = ["C12_total", "C12_accounting", "C12_roundtrip", "C12_dispatch", "C12_first_match", "C12_default_one_line",
+                "C12_found", "C12_found_literal", "C12_found_anchored_literal", "C12_found_alternation", "C12_found_empty"]
     rule = ("block lists of 1-4 raw block types (blocks that store the lines they consume: from the first line up to and "
             "including the first line where the end pattern is found, or the end of input) with begin/end patterns from a "
             "pool of regular expressions that match mid-line, are anchored, alternate and overlap (declaration order "
@@ -21,7 +26,13 @@ class CHECK(Check):
             "the last line without newline, blank lines, empty content; text storage and binary storage with one-byte "
             "markers. Plus every content of <=3 lines over an 8-line pool for 10 fixed block lists (complete). "
             "non-trivial = at least one typed block of >= 2 lines and one default block; distinct = hash"
-            " Later additions: block class hierarchies, read() returning True/honest False/None, patterns containing the line terminator, the empty pattern.")
+            " Later additions: block class hierarchies, read() returning True/honest False/None, patterns containing the line terminator, the empty pattern."
+            " Round 11: begin/end patterns are regular expressions proper (the model's language, coq/Py/PyRe.v: classes, . \\s \\d, ^ $, "
+            "concatenation, alternation, * + ? {m,n}) -- a pool of typical block markers plus randomly generated expressions in 35 % of "
+            "the random block lists, classes as one-byte markers in binary storage; carriage returns in text content (CRLF ends, lone CR); "
+            "extra tie: re.search/match/fullmatch of the generated expressions against the model (small scope complete + random + "
+            "the \\s / \\d tables); blocks whose storage is allocated by the constructor and only appended to by read(); 1-2 other "
+            "contents read and written through the same file class before the measured read.")
 
     def gen(self, tier, rng):
         import itertools, random
@@ -41,15 +52,50 @@ class CHECK(Check):
                 marks = "\x01\x02\x03\x04"
                 bds = []
                 for _ in range(rng.randint(1, 3)):
-                    bds.append({"begin": [[False, rng.choice(marks)]], "end": [[False, rng.choice(marks)]]})
+                    bds.append({"begin": self.bin_marker(rng, marks), "end": self.bin_marker(rng, marks)})
                 content = "".join(rng.choice("\x01\x02\x03\x04\x05ab\n\x00\xff") for _ in range(rng.randint(0, 14)))
                 self.hierarchy(rng, bds)
                 yield {"binary": True, "blocks": bds, "content": content}
             else:
-                bds = [{"begin": rng.choice(bl.PATTERN_POOL), "end": rng.choice(bl.PATTERN_POOL)} for _ in range(rng.randint(1, 4))]
-                lines = [rng.choice(LINE_POOL) for _ in range(rng.randint(0, 10))]
+                gen_re = rng.random() < 0.35
+                bds = [{"begin": self.text_pattern(rng, gen_re), "end": self.text_pattern(rng, gen_re)} for _ in range(rng.randint(1, 4))]
+                pool = LINE_POOL + CR_POOL if rng.random() < 0.3 else LINE_POOL
+                lines = [rng.choice(pool) for _ in range(rng.randint(0, 10))]
                 self.hierarchy(rng, bds)
-                yield {"binary": False, "blocks": bds, "content": "\n".join(lines) + (rng.choice(["\n", "\n", ""]) if lines else "")}
+                for bd in bds:
+                    if rng.random() < 0.3:
+                        bd["store"] = "init"     # storage allocated by the constructor, read() only appends
+                case = {"binary": False, "blocks": bds, "content": "\n".join(lines) + (rng.choice(["\n", "\n", ""]) if lines else "")}
+                if rng.random() < 0.35:
+                    # object history: 1-2 other contents were read (and written) through the same file class before
+                    case["earlier"] = ["\n".join(rng.choice(LINE_POOL) for _ in range(rng.randint(0, 6))) + rng.choice(["\n", ""])
+                                       for _ in range(rng.randint(1, 2))]
+                yield case
+
+    @staticmethod
+    def text_pattern(rng, gen_re):
+        if gen_re and rng.random() < 0.7:
+            return relib.gen_pattern(rng, WORDS, "ABEX019 #-\n\t.zd\r", 3)
+        return rng.choice(bl.PATTERN_POOL)
+
+    @staticmethod
+    def bin_marker(rng, marks):
+        """one-byte markers: a literal byte, or a class / negated class / alternation of bytes"""
+        k = rng.random()
+        if k < 0.6:
+            return [[False, rng.choice(marks)]]
+        if k < 0.8:
+            a = ord(rng.choice(marks))
+            return ["cls", rng.random() < 0.3, [[a, a + rng.randint(0, 2)]]]
+        if k < 0.9:
+            return ["alt", ["lit", rng.choice(marks)], ["lit", rng.choice(marks + "a")]]
+        return rng.choice([["any"], ["s", False], ["d", True], ["seq", ["bol"], ["lit", rng.choice(marks)]], ["seq", ["lit", rng.choice(marks)], ["eol"]]])
+
+    def extra(self, tier, seed):
+        """'found in the line' is the model's re_search: compare it (and match / fullmatch) with CPython's re directly"""
+        n, kinds, bad = relib.run_tie(tier, seed)
+        return {"what": "regular-expression correspondence: re.search/match/fullmatch(...) is not None vs coq/Py/PyRe.v", "evaluations": n,
+                "by_kind": kinds, "problems": ["%s /%s/ on %r: python %r model %r" % b for b in bad[:5]]}
 
     @staticmethod
     def hierarchy(rng, bds):
@@ -75,7 +121,9 @@ class CHECK(Check):
             with open(arg, "w", encoding="utf-8", newline="") as fh:
                 fh.write(content)
         try:
-            with lib.budget(5000 + 600 * (len(content) + 1)):
+            with lib.budget(5000 + 600 * (len(content) + 1 + sum(len(c) + 1 for c in case.get("earlier", [])))):
+                for c0 in case.get("earlier", []):
+                    F.read(c0).write(io.StringIO())
                 f = F.read(arg)
                 elems = bl.canon_raw(f.data, DefaultBlock, binary, cap=len(content) + 5)
                 buf = io.BytesIO() if binary else io.StringIO()
@@ -88,8 +136,8 @@ class CHECK(Check):
         return {"placeholder": elems[0], "elems": elems[1:], "written": list(out) if binary else out}
 
     def model_arg(self, case, variant=0):
-        return [variant, case["binary"], [[bl.pattern_sx(bd["begin"]), bl.pattern_sx(bd["end"])] for bd in case["blocks"]],
-                case["content"]]
+        b = case["binary"]
+        return [variant, b, [[bl.pattern_sx(bd["begin"], b), bl.pattern_sx(bd["end"], b)] for bd in case["blocks"]], case["content"]]
 
     def model_obs(self, case, res):
         if res == [-3]:
@@ -143,8 +191,17 @@ class CHECK(Check):
         return bool(typed) and any(e[0] < 0 for e in obs["elems"])
 
     def classify(self, case):
-        return {"binary" if case["binary"] else "text": 1, "types_%d" % len(case["blocks"]): 1,
-                "final_newline" if case["content"].endswith("\n") else "no_final_newline": 1}
+        d = {"binary" if case["binary"] else "text": 1, "types_%d" % len(case["blocks"]): 1,
+             "final_newline" if case["content"].endswith("\n") else "no_final_newline": 1}
+        if any(not relib.is_legacy(bd[k]) for bd in case["blocks"] for k in ("begin", "end")):
+            d["with_regular_expression_patterns"] = 1
+        if "\r" in case["content"]:
+            d["content_with_carriage_return"] = 1
+        if case.get("earlier"):
+            d["earlier_reads_through_the_same_file_class"] = 1
+        if any(bd.get("store") == "init" for bd in case["blocks"]):
+            d["block_storage_allocated_by_the_constructor"] = 1
+        return d
 
     def signature(self, case, why):
         return why
@@ -166,6 +223,11 @@ class CHECK(Check):
             for i in range(len(case["blocks"])):
                 c = dict(case)
                 c["blocks"] = case["blocks"][:i] + case["blocks"][i + 1:]
+                yield c
+        if case.get("earlier"):
+            for i in range(len(case["earlier"])):
+                c = dict(case)
+                c["earlier"] = case["earlier"][:i] + case["earlier"][i + 1:]
                 yield c
 
     def neighbours(self, case, rng):
